@@ -34,10 +34,16 @@ _real = dict(
 
 
 MAIN_PID = os.getpid()
+_fd_counter = itertools.count(VFD_BASE)
 
 
 class WouldBlock(Exception):
     """A sequential (non-vthread) driver made a call that would block."""
+
+
+class Horizon(Exception):
+    """Sequential driver: timed waits advanced the virtual clock past the
+    world's horizon (a polling loop that never ends)."""
 
 
 # ---------------------------------------------------------------- the world
@@ -48,7 +54,9 @@ class World:
         self.sched = sched
         self._now = now
         self.fds = {}                    # vfd -> (VEnd, owner pid)
-        self.next_fd = itertools.count(VFD_BASE)
+        self.next_fd = _fd_counter       # never reused across worlds: a
+        #                                  stale Connection collected later
+        #                                  must not close a live fd
         self.sems = {}                   # handle -> VSem
         self.next_sem = itertools.count(1)
         self.procs = {}                  # pid -> VProc
@@ -68,6 +76,7 @@ class World:
         self.kills = []                  # (sender pid, target pid, sig)
         self.virtual_time = True
         self.exit_hooks = []
+        self.seq_horizon = None          # absolute virtual time or None
 
     @property
     def now(self):
@@ -163,6 +172,9 @@ def _point(op, obj=None, enabled=None, deadline=None):
     """Scheduling point if in a vthread; sequential callers must not block."""
     vt = current()
     if vt is None:
+        if deadline is not None and _world.seq_horizon is not None and \
+                deadline > _world.seq_horizon:
+            raise Horizon('%s: timed wait beyond the horizon' % op)
         if enabled is not None and not enabled():
             if deadline is not None:
                 _world.now = max(_world.now, deadline)
@@ -423,10 +435,10 @@ def v_dup(fd):
 
 
 def v_close(fd):
-    if not is_vfd(fd) or _world is None:
+    if not is_vfd(fd):
         return _real['close'](fd)
-    if fd not in _world.fds:
-        raise OSError(errno.EBADF, 'Bad (virtual) file descriptor')
+    if _world is None or fd not in _world.fds:
+        return          # fd of an earlier world (object collected late)
     _point('close', fd)
     if fd in _world.fds:
         _drop_fd(fd)
